@@ -60,6 +60,8 @@ theorem stepA {rv s a s'} (h : InvA s) (st : Step rv s a s') : InvA s' := by
     refine ⟨by grind, ?_, ?_, ?_, ?_, ?_, ?_⟩ <;> intro j <;> grind
   | finish i v ht hv =>
     refine ⟨by simpa [upd] using h1, ?_, ?_, ?_, ?_, ?_, ?_⟩ <;> intro j <;> simp only [upd, res] <;> by_cases hj : j = i <;> simp only [hj, if_true, if_false] <;> grind
+  | refuse i v ht hv =>
+    refine ⟨by simpa [upd] using h1, ?_, ?_, ?_, ?_, ?_, ?_⟩ <;> intro j <;> simp only [upd, res] <;> by_cases hj : j = i <;> simp only [hj, if_true, if_false] <;> grind
   | timer i =>
     refine ⟨by simpa [upd] using h1, ?_, ?_, ?_, ?_, ?_, ?_⟩ <;> intro j <;> simp only [upd, res] <;> by_cases hj : j = i <;> simp only [hj, if_true, if_false] <;> grind
 
@@ -68,57 +70,60 @@ theorem reachA {rv s} (h : Reach rv s) : InvA s := by
   | init => exact initA
   | step _ st ih => exact stepA ih st
 
-/-- taken off the queue once, retryable only if never written, one delivery -/
+/-- taken off the queue once, retryable only if never written or disclaimed by the server, one delivery -/
 structure InvB (s : S) : Prop where
   b1 : ∀ i, (s.r i).pc = .start → (s.r i).inQ = false ∧ (s.r i).written = false ∧ (s.r i).result = none ∧ (s.r i).errBuf ≠ some .retryable
   b2 : ∀ i, (s.r i).inQ = true → (s.r i).written = false
-  b3 : ∀ i, (s.r i).errBuf = some .retryable → (s.r i).written = false ∧ (s.r i).inQ = false
-  b4 : ∀ i, (s.r i).result = some .retryable → (s.r i).written = false ∧ (s.r i).inQ = false
+  b3 : ∀ i, (s.r i).errBuf = some .retryable → ((s.r i).written = false ∨ (s.r i).disclaimed = true) ∧ (s.r i).inQ = false
+  b4 : ∀ i, (s.r i).result = some .retryable → ((s.r i).written = false ∨ (s.r i).disclaimed = true) ∧ (s.r i).inQ = false
   b5 : ∀ i, (s.r i).reads = if (s.r i).pc = .taking ∨ (s.r i).pc = .got then 1 else 0
+  b6 : ∀ i, (s.r i).disclaimed = true ∨ (s.r i).inTable = true → (s.r i).written = true
 
 theorem initB : InvB init := by
   constructor <;> simp [init]
 
 theorem stepB {s a s'} (h : InvB s) (st : Step recheckFixed s a s') : InvB s' := by
-  obtain ⟨h1, h2, h3, h4, h5⟩ := h
+  obtain ⟨h1, h2, h3, h4, h5, h6⟩ := h
   cases st with
   | seeDone i hpc hd =>
-    refine ⟨?_, ?_, ?_, ?_, ?_⟩ <;> intro j <;> simp only [upd, res, closeVal] <;> by_cases hj : j = i <;> simp only [hj, if_true, if_false] <;> grind
+    refine ⟨?_, ?_, ?_, ?_, ?_, ?_⟩ <;> intro j <;> simp only [upd, res, closeVal] <;> by_cases hj : j = i <;> simp only [hj, if_true, if_false] <;> grind
   | enqueue i hpc =>
-    refine ⟨?_, ?_, ?_, ?_, ?_⟩ <;> intro j <;> simp only [upd, res] <;> by_cases hj : j = i <;> simp only [hj, if_true, if_false] <;> grind
+    refine ⟨?_, ?_, ?_, ?_, ?_, ?_⟩ <;> intro j <;> simp only [upd, res] <;> by_cases hj : j = i <;> simp only [hj, if_true, if_false] <;> grind
   | recheckD i hpc hd =>
-    refine ⟨?_, ?_, ?_, ?_, ?_⟩ <;> intro j <;> simp only [upd, res, recheckFixed] <;> by_cases hj : j = i <;> simp only [hj, if_true, if_false] <;> grind
+    refine ⟨?_, ?_, ?_, ?_, ?_, ?_⟩ <;> intro j <;> simp only [upd, res, recheckFixed] <;> by_cases hj : j = i <;> simp only [hj, if_true, if_false] <;> grind
   | recheckN i hpc hd =>
-    refine ⟨?_, ?_, ?_, ?_, ?_⟩ <;> intro j <;> simp only [upd, res] <;> by_cases hj : j = i <;> simp only [hj, if_true, if_false] <;> grind
+    refine ⟨?_, ?_, ?_, ?_, ?_, ?_⟩ <;> intro j <;> simp only [upd, res] <;> by_cases hj : j = i <;> simp only [hj, if_true, if_false] <;> grind
   | read i v hpc he =>
-    refine ⟨?_, ?_, ?_, ?_, ?_⟩ <;> intro j <;> simp only [upd, res] <;> by_cases hj : j = i <;> simp only [hj, if_true, if_false] <;> grind
+    refine ⟨?_, ?_, ?_, ?_, ?_, ?_⟩ <;> intro j <;> simp only [upd, res] <;> by_cases hj : j = i <;> simp only [hj, if_true, if_false] <;> grind
   | takeBack i hpc =>
-    refine ⟨?_, ?_, ?_, ?_, ?_⟩ <;> intro j <;> simp only [upd, res] <;> by_cases hj : j = i <;> simp only [hj, if_true, if_false] <;> grind
+    refine ⟨?_, ?_, ?_, ?_, ?_, ?_⟩ <;> intro j <;> simp only [upd, res] <;> by_cases hj : j = i <;> simp only [hj, if_true, if_false] <;> grind
   | wlTakeWrite i hw hq =>
-    refine ⟨?_, ?_, ?_, ?_, ?_⟩ <;> intro j <;> simp only [upd, res] <;> by_cases hj : j = i <;> simp only [hj, if_true, if_false] <;> grind
+    refine ⟨?_, ?_, ?_, ?_, ?_, ?_⟩ <;> intro j <;> simp only [upd, res] <;> by_cases hj : j = i <;> simp only [hj, if_true, if_false] <;> grind
   | wlTakeReject i hw hq =>
-    refine ⟨?_, ?_, ?_, ?_, ?_⟩ <;> intro j <;> simp only [upd, res] <;> by_cases hj : j = i <;> simp only [hj, if_true, if_false] <;> grind
+    refine ⟨?_, ?_, ?_, ?_, ?_, ?_⟩ <;> intro j <;> simp only [upd, res] <;> by_cases hj : j = i <;> simp only [hj, if_true, if_false] <;> grind
   | wlTakeSkip i hw hq hp =>
-    refine ⟨?_, ?_, ?_, ?_, ?_⟩ <;> intro j <;> simp only [upd, res] <;> by_cases hj : j = i <;> simp only [hj, if_true, if_false] <;> grind
+    refine ⟨?_, ?_, ?_, ?_, ?_, ?_⟩ <;> intro j <;> simp only [upd, res] <;> by_cases hj : j = i <;> simp only [hj, if_true, if_false] <;> grind
   | wlWriteFail i hw hq =>
-    refine ⟨?_, ?_, ?_, ?_, ?_⟩ <;> intro j <;> simp only [upd, res] <;> by_cases hj : j = i <;> simp only [hj, if_true, if_false] <;> grind
+    refine ⟨?_, ?_, ?_, ?_, ?_, ?_⟩ <;> intro j <;> simp only [upd, res] <;> by_cases hj : j = i <;> simp only [hj, if_true, if_false] <;> grind
   | wlBodyFail i hw hq =>
-    refine ⟨?_, ?_, ?_, ?_, ?_⟩ <;> intro j <;> simp only [upd, res] <;> by_cases hj : j = i <;> simp only [hj, if_true, if_false] <;> grind
-  | wlFail hw => exact ⟨h1, h2, h3, h4, h5⟩
-  | wlSeeDone hw hd => exact ⟨h1, h2, h3, h4, h5⟩
-  | wlSetErr hw => exact ⟨h1, h2, h3, h4, h5⟩
-  | wlClose hw => exact ⟨h1, h2, h3, h4, h5⟩
+    refine ⟨?_, ?_, ?_, ?_, ?_, ?_⟩ <;> intro j <;> simp only [upd, res] <;> by_cases hj : j = i <;> simp only [hj, if_true, if_false] <;> grind
+  | wlFail hw => exact ⟨h1, h2, h3, h4, h5, h6⟩
+  | wlSeeDone hw hd => exact ⟨h1, h2, h3, h4, h5, h6⟩
+  | wlSetErr hw => exact ⟨h1, h2, h3, h4, h5, h6⟩
+  | wlClose hw => exact ⟨h1, h2, h3, h4, h5, h6⟩
   | wlTakeAll hw =>
-    refine ⟨?_, ?_, ?_, ?_, ?_⟩ <;> intro j <;> simp only [res] <;> grind
+    refine ⟨?_, ?_, ?_, ?_, ?_, ?_⟩ <;> intro j <;> simp only [res] <;> grind
   | wlDrainOne i hw hq =>
-    refine ⟨?_, ?_, ?_, ?_, ?_⟩ <;> intro j <;> simp only [upd, res] <;> by_cases hj : j = i <;> simp only [hj, if_true, if_false] <;> grind
-  | wlDrainEnd hw hall => exact ⟨h1, h2, h3, h4, h5⟩
-  | close => exact ⟨h1, h2, h3, h4, h5⟩
-  | rdSetErr => exact ⟨h1, h2, h3, h4, h5⟩
+    refine ⟨?_, ?_, ?_, ?_, ?_, ?_⟩ <;> intro j <;> simp only [upd, res] <;> by_cases hj : j = i <;> simp only [hj, if_true, if_false] <;> grind
+  | wlDrainEnd hw hall => exact ⟨h1, h2, h3, h4, h5, h6⟩
+  | close => exact ⟨h1, h2, h3, h4, h5, h6⟩
+  | rdSetErr => exact ⟨h1, h2, h3, h4, h5, h6⟩
   | finish i v ht hv =>
-    refine ⟨?_, ?_, ?_, ?_, ?_⟩ <;> intro j <;> simp only [upd, res] <;> by_cases hj : j = i <;> simp only [hj, if_true, if_false] <;> grind
+    refine ⟨?_, ?_, ?_, ?_, ?_, ?_⟩ <;> intro j <;> simp only [upd, res] <;> by_cases hj : j = i <;> simp only [hj, if_true, if_false] <;> grind
+  | refuse i v ht hv =>
+    refine ⟨?_, ?_, ?_, ?_, ?_, ?_⟩ <;> intro j <;> simp only [upd, res] <;> by_cases hj : j = i <;> simp only [hj, if_true, if_false] <;> grind
   | timer i =>
-    refine ⟨?_, ?_, ?_, ?_, ?_⟩ <;> intro j <;> simp only [upd, res] <;> by_cases hj : j = i <;> simp only [hj, if_true, if_false] <;> grind
+    refine ⟨?_, ?_, ?_, ?_, ?_, ?_⟩ <;> intro j <;> simp only [upd, res] <;> by_cases hj : j = i <;> simp only [hj, if_true, if_false] <;> grind
 
 theorem reachB {s} (h : Reach recheckFixed s) : InvB s := by
   induction h with
